@@ -228,5 +228,27 @@ def run(ctx):
                 res.count("cdecay_agreement")
                 if got != wantc:
                     res.violation("CDecay table and DecayMode.charge_conjugate disagree", {"kind": "cdecay-agree", "text": text}, impl=got, model=wantc, clause="agreement with CDecay")
+    # two differently named aliases of one SELF-CONJUGATE particle tied by a ChargeConj statement, a Decay for one and CDecay for
+    # the other (a K_S0 reconstructed on the signal side and on the tag side): the table CDecay makes is the conjugate of the decay
+    for part, daughters in (("K_S0", ["pi+", "pi-", "pi0"]), ("pi0", ["e+", "e-", "gamma"]), ("J/psi", ["mu+", "mu-"]), ("phi", ["K+", "K-"]), ("rho0", ["pi+", "pi-", "gamma"])):
+        for a1, a2 in (("My" + part, "Myanti-" + part), (part + "_sig", part + "_tag")):
+            if not (gen.safe_label(a1) and gen.safe_label(a2)):
+                continue
+            text = (f"Alias {a1} {part}\nAlias {a2} {part}\nChargeConj {a1} {a2}\nDecay {a1}\n0.7 {' '.join(daughters)} PHSP;\n0.3 {daughters[0]} nu_e PHOTOS VSS;\nEnddecay\n"
+                    f"CDecay {a2}\nDecay B0\n1.0 {a2} {a1} PHSP;\nEnddecay\n")
+            try:
+                p = DecFileParser.from_string(text)
+                p.parse()
+                got = [sorted(fs) for fs in p.list_decay_modes(a2)]
+                chain = p.build_decay_chains("B0")
+                n_sub = sum(1 for x in chain["B0"][0]["fs"] if isinstance(x, dict))
+            except Exception as e:
+                got, n_sub = f"{type(e).__name__}: {e}", None
+            want = [DecayMode(0.7, daughters).charge_conjugate().daughters.to_list(), DecayMode(0.3, [daughters[0], "nu_e"]).charge_conjugate().daughters.to_list()]
+            res.case()
+            res.count("cdecay_agreement_self_conjugate_aliases")
+            if got != want or n_sub != 2:
+                res.violation("CDecay for a second alias of a self-conjugate particle does not give the conjugate of the decay", {"kind": "cdecay-agree", "text": text},
+                              impl={"modes": got, "sub_decays_in_B0_chain": n_sub}, model={"modes": want, "sub_decays_in_B0_chain": 2}, clause="agreement with CDecay")
     batch.run()
     return res.done()
